@@ -151,3 +151,128 @@ Example multiline_decorator_removed :
   transform "'" only_raises no_head [SImport 1 ["deal"]] [multi_fn] ["import deal"; "@deal.raises("; "    KeyError,"; ")"; "def f():"; "    raise ValueError"]
   = Some ["import deal"; "@deal.raises(KeyError, ValueError)"; "def f():"; "    raise ValueError"].
 Proof. reflexivity. Qed.
+
+(* ---------- (7) the planner meets W1: under the layout fact that the decorators of a function occupy disjoint line ranges, no
+   line is removed twice ---------- *)
+Definition in_rangeb (c : contract) (l : nat) : bool := Nat.leb (c_line c) l && Nat.leb l (c_line c + (c_last c - c_line c)).
+Definition is_rm (l : nat) (m : pmut) : bool := match m with PRemove l' => Nat.eqb l' l | _ => false end.
+Definition removes (l : nat) (ms : list pmut) : nat := List.length (filter (is_rm l) ms).
+Lemma removes_app l a b : removes l (a ++ b) = removes l a + removes l b.
+Proof. unfold removes. rewrite filter_app, app_length. reflexivity. Qed.
+Lemma removes_seq l a n : removes l (map PRemove (seq a n)) = if Nat.leb a l && Nat.ltb l (a + n) then 1 else 0.
+Proof.
+  revert a. induction n as [|n IH]; intro a.
+  - cbn [seq map]. unfold removes. cbn [filter List.length].
+    destruct (Nat.leb_spec a l), (Nat.ltb_spec l (a + 0)); cbn [andb]; try reflexivity; lia.
+  - cbn [seq map]. unfold removes in *. cbn [filter is_rm]. specialize (IH (S a)).
+    destruct (Nat.eqb_spec a l) as [E|E].
+    + cbn [List.length]. rewrite IH. subst a.
+      destruct (Nat.leb_spec (S l) l), (Nat.leb_spec l l), (Nat.ltb_spec l (S l + n)), (Nat.ltb_spec l (l + S n)); cbn [andb]; try reflexivity; lia.
+    + rewrite IH.
+      destruct (Nat.leb_spec (S a) l), (Nat.leb_spec a l), (Nat.ltb_spec l (S a + n)), (Nat.ltb_spec l (a + S n)); cbn [andb]; try reflexivity; lia.
+Qed.
+Lemma removes_contract l c : removes l (remove_contract c) = if in_rangeb c l then 1 else 0.
+Proof.
+  unfold remove_contract. rewrite removes_seq. unfold in_rangeb. destruct (Nat.leb (c_line c) l); cbn [andb]; [|reflexivity].
+  destruct (Nat.ltb_spec l (c_line c + S (c_last c - c_line c))), (Nat.leb_spec l (c_line c + (c_last c - c_line c))); try reflexivity; lia.
+Qed.
+Definition hits (S : contract -> bool) (cs : list contract) (l : nat) : nat := List.length (filter (fun c => S c && in_rangeb c l) cs).
+Lemma removes_excs_part l il col cs :
+  removes l (flat_map (fun c => if exc_cat c then remove_contract c ++ (if cat_eqb (c_cat c) CPure then [PInsertC il CHas [] col] else []) else []) cs)
+  = hits exc_cat cs l.
+Proof.
+  induction cs as [|c t IH]; [reflexivity|]. cbn [flat_map]. rewrite removes_app, IH. unfold hits. cbn [filter].
+  destruct (exc_cat c); cbn [andb].
+  - rewrite removes_app, removes_contract. destruct (in_rangeb c l); cbn [List.length]; destruct (cat_eqb (c_cat c) CPure); cbn; lia.
+  - reflexivity.
+Qed.
+Definition excs_active (ty : types) (f : func) : bool := nonempty (f_new_excs f) && t_raises ty.
+Lemma removes_excs l ty f : removes l (mutations_excs ty f) = if excs_active ty f then hits exc_cat (f_contracts f) l else 0.
+Proof.
+  unfold mutations_excs, excs_active. destruct (f_new_excs f) as [|e es] eqn:E; cbn [nonempty andb].
+  - destruct (nonempty (declared_excs f)); [reflexivity|]. destruct (negb (t_safe ty || t_pure ty)); [reflexivity|].
+    destruct (has_contract f [CPure; CSafe]); reflexivity.
+  - destruct (t_raises ty); cbn [negb]; [|reflexivity]. rewrite removes_app, removes_excs_part. cbn. lia.
+Qed.
+Lemma removes_remove_first l m acc : is_rm l m = false -> removes l (remove_first m acc) = removes l acc.
+Proof.
+  intro Hm. induction acc as [|x t IH]; [reflexivity|]. cbn [remove_first]. destruct (pmut_eqb x m) eqn:E.
+  - unfold removes. cbn [filter]. destruct (is_rm l x) eqn:Ex; [|reflexivity].
+    exfalso. destruct x, m; cbn in E, Ex, Hm; try discriminate. apply Nat.eqb_eq in E. subst. congruence.
+  - unfold removes in *. cbn [filter]. destruct (is_rm l x); cbn [List.length]; rewrite IH; reflexivity.
+Qed.
+Lemma has_remove_mono x acc extra : existsb (pmut_eqb (PRemove x)) acc = true -> existsb (pmut_eqb (PRemove x)) (acc ++ extra) = true.
+Proof. intro H. rewrite existsb_app, H. reflexivity. Qed.
+Lemma has_remove_remove_first x m acc : (forall y, m <> PRemove y) ->
+  existsb (pmut_eqb (PRemove x)) (remove_first m acc) = existsb (pmut_eqb (PRemove x)) acc.
+Proof.
+  intro Hm. induction acc as [|a t IH]; [reflexivity|]. cbn [remove_first]. destruct (pmut_eqb a m) eqn:E.
+  - cbn [existsb]. destruct (pmut_eqb (PRemove x) a) eqn:Ea; [|reflexivity].
+    exfalso. destruct a; cbn in Ea; try discriminate. destruct m; cbn in E; try discriminate. apply (Hm l0). reflexivity.
+  - cbn [existsb]. rewrite IH. reflexivity.
+Qed.
+Lemma hits_cons S c t l : hits S (c :: t) l = (if S c && in_rangeb c l then 1 else 0) + hits S t l.
+Proof. unfold hits. cbn [filter]. destruct (S c && in_rangeb c l); reflexivity. Qed.
+(* the markers half adds, for line l, at most the has-family contracts in range that are not already removed *)
+Lemma removes_markers_fold l il col cs acc (R : contract -> bool) :
+  (forall c, In c cs -> R c = true -> existsb (pmut_eqb (PRemove (c_line c))) acc = true) ->
+  removes l (fold_left (markers_step il col) cs acc) <= removes l acc + hits (fun c => has_cat c && negb (R c)) cs l.
+Proof.
+  revert acc. induction cs as [|c t IH]; intros acc HR; [unfold hits; cbn [fold_left filter List.length]; lia|]. cbn [fold_left].
+  assert (Ht : forall acc', (forall x, existsb (pmut_eqb (PRemove x)) acc = true -> existsb (pmut_eqb (PRemove x)) acc' = true) ->
+               forall c', In c' t -> R c' = true -> existsb (pmut_eqb (PRemove (c_line c'))) acc' = true).
+  { intros acc' Hm c' Hin Hr. apply Hm. apply HR; [right; exact Hin|exact Hr]. }
+  rewrite hits_cons. unfold markers_step at 2. destruct (has_cat c) eqn:Eh; cbn [negb andb].
+  - destruct (existsb (pmut_eqb (PRemove (c_line c))) acc) eqn:Ex.
+    + eapply Nat.le_trans; [apply IH; apply Ht; intros x Hx; rewrite has_remove_remove_first; [exact Hx|intros y; discriminate]|].
+      rewrite removes_remove_first by reflexivity. lia.
+    + assert (Rc : R c = false).
+      { destruct (R c) eqn:Er; [|reflexivity]. rewrite (HR c (or_introl eq_refl) Er) in Ex. discriminate. }
+      rewrite Rc. cbn [negb andb].
+      eapply Nat.le_trans; [apply IH; apply Ht; intros x Hx; apply has_remove_mono; exact Hx|].
+      rewrite !removes_app, removes_contract.
+      assert (Z : removes l (if cat_eqb (c_cat c) CPure then [PInsertC il CSafe [] col] else []) = 0) by (destruct (cat_eqb (c_cat c) CPure); reflexivity).
+      rewrite Z. destruct (in_rangeb c l); lia.
+  - eapply Nat.le_trans; [apply IH; apply Ht; auto|]. lia.
+Qed.
+Lemma hits_disjoint_sum A B cs l : (forall c, A c && B c = false) -> hits A cs l + hits B cs l <= hits (fun _ => true) cs l.
+Proof.
+  intro H. induction cs as [|c t IH]; [unfold hits; cbn; lia|]. rewrite !hits_cons. specialize (H c).
+  destruct (A c), (B c); try discriminate; cbn [andb]; destruct (in_rangeb c l); lia.
+Qed.
+Lemma hits_le_all A cs l : hits A cs l <= hits (fun _ => true) cs l.
+Proof. induction cs as [|c t IH]; [unfold hits; cbn; lia|]. rewrite !hits_cons. destruct (A c); cbn [andb]; destruct (in_rangeb c l); lia. Qed.
+Lemma excs_has_first_line ty f c :
+  excs_active ty f = true -> In c (f_contracts f) -> exc_cat c = true -> existsb (pmut_eqb (PRemove (c_line c))) (mutations_excs ty f) = true.
+Proof.
+  unfold excs_active, mutations_excs. intros Ha Hin Hc. destruct (f_new_excs f) as [|e es]; [discriminate|]. cbn [nonempty andb] in Ha. rewrite Ha. cbn [negb].
+  apply existsb_exists. exists (PRemove (c_line c)). split; [|cbn; apply Nat.eqb_refl].
+  apply in_or_app. left. apply in_flat_map. exists c. split; [exact Hin|]. rewrite Hc. apply in_or_app. left.
+  unfold remove_contract. cbn [seq map]. left. reflexivity.
+Qed.
+(* the layout fact: at most one decorator of the function covers a given line *)
+Definition disjoint_ranges (cs : list contract) : Prop := forall l, hits (fun _ => true) cs l <= 1.
+Theorem planner_meets_w1 q ty f l :
+  disjoint_ranges (f_contracts f) -> removes l (collect q ty [] f) <= 1.
+Proof.
+  intro Hd. specialize (Hd l). unfold collect. cbn [app].
+  assert (HE : removes l (mutations_excs ty f) <= hits (fun c => exc_cat c && excs_active ty f) (f_contracts f) l).
+  { rewrite removes_excs. destruct (excs_active ty f).
+    - unfold hits. rewrite (filter_ext (fun c => exc_cat c && true && in_rangeb c l) (fun c => exc_cat c && in_rangeb c l)); [lia|].
+      intro c. rewrite andb_true_r. reflexivity.
+    - lia. }
+  unfold collect_markers. destruct (negb (t_has ty || t_pure ty)).
+  { eapply Nat.le_trans; [exact HE|]. eapply Nat.le_trans; [apply hits_le_all|exact Hd]. }
+  destruct (f_new_markers f) as [|m ms].
+  { destruct (has_contract f [CPure; CHas]).
+    - eapply Nat.le_trans; [exact HE|]. eapply Nat.le_trans; [apply hits_le_all|exact Hd].
+    - rewrite removes_app. cbn. eapply Nat.le_trans; [|exact Hd]. eapply Nat.le_trans; [|apply (hits_le_all (fun c => exc_cat c && excs_active ty f))]. lia. }
+  destruct (negb (t_has ty)).
+  { eapply Nat.le_trans; [exact HE|]. eapply Nat.le_trans; [apply hits_le_all|exact Hd]. }
+  rewrite removes_app. cbn [removes filter is_rm List.length]. rewrite Nat.add_0_r.
+  eapply Nat.le_trans.
+  - apply (removes_markers_fold l _ _ (f_contracts f) (mutations_excs ty f) (fun c => exc_cat c && excs_active ty f)).
+    intros c Hin Hr. apply andb_true_iff in Hr. destruct Hr as [Hc Ha]. apply excs_has_first_line; assumption.
+  - eapply Nat.le_trans; [|exact Hd]. eapply Nat.le_trans; [apply Nat.add_le_mono_r; exact HE|].
+    apply hits_disjoint_sum. intro c. destruct (exc_cat c && excs_active ty f); cbn; [rewrite andb_false_r|]; reflexivity.
+Qed.
